@@ -593,8 +593,24 @@ def search(rng, case):
 
 
 MANIFEST = {
-    "level_text": "",
-    "level_note": "",
-    "technique": "",
+    "level_text": ("Machine-checked Coq proof about the executable delivery / abort machine of plan runs (Model/Events.v: Plan.emit_event "
+                   "recipient order, run_step with START / body / FINISHED, latched Plan._aborted, nested plans; step bodies compiled from the "
+                   "C14 machine), for every world of handlers and observers, every sequence of steps with arbitrary nesting and EVERY abort "
+                   "index: the aborted run's log is the unaborted log cut after the aborting entry followed by the FINISHED events of the open "
+                   "steps, innermost first (C15_prefix_closure), the plan is marked aborted, every step containing the entry returns "
+                   "USER_ABORT and every later run_step is refused (C15_abort_latches, C15_aborted_step_reports_user_abort, "
+                   "C15_once_aborted_every_step_refused, C15_unaborted); every run_step log starts with its START and ends with its FINISHED "
+                   "event whatever the abort index (C15_step_bracketed); evaluation events alternate START/FINISHED and a START stays unmatched "
+                   "only when the evaluator raised or aborted inside it (C15_evaluations_paired, C15_evaluator_step_events); events go to the "
+                   "emitting plan's handlers, then the ancestors', then the observers, each exactly once (C15_delivery_order, "
+                   "C15_delivery_members, C15_delivered_once).  Tied to the code on every run by an in-Coq correspondence over real Plans in "
+                   "which every delivery index and evaluator call of every scenario is used as the abort point."),
+    "level_note": ("Trusted / modelled, not verified: handlers, observers and the evaluator do nothing but raise OptimizationAborted(USER_ABORT) "
+                   "at the chosen log index; other exceptions from handlers are outside the property; step bodies come from Model/Step.v "
+                   "(C14); nesting depth in the correspondence is 2 (the theorems hold for any program tree); wf/quiet side conditions are "
+                   "evaluated by the checker on every compiled scenario.  Trusted: Coq kernel + VM, the recording handler plug-in, observers "
+                   "and scripted optimizer of harness/props/C15.py and C14.py.  All theorems print 'Closed under the global context'."),
+    "technique": ("Coq proof (simulation invariant by induction over program trees: aborted log = prefix + closure; latching by induction over "
+                  "step sequences) + exhaustive-over-abort-points in-Coq differential correspondence with real Plan runs"),
     "design_ref": "DESIGN.md section 4, C15",
 }
